@@ -178,6 +178,15 @@ pub enum Step {
         #[serde(with = "hx")]
         end: u64,
     },
+    /// someone else (firmware, another kernel component) stores a huge-page entry whose address is
+    /// not size-aligned into a free slot: the state the `InvalidFrameAddress` errors exist for
+    Poke {
+        size: Size,
+        #[serde(with = "hx")]
+        page: u64,
+        #[serde(with = "hx")]
+        raw: u64,
+    },
     /// the simulated CPU touches an address (TLB fill)
     Touch {
         #[serde(with = "hx")]
@@ -201,6 +210,7 @@ impl Step {
             Step::CleanUp => "clean_up",
             Step::CleanUpRange { .. } => "clean_up_addr_range",
             Step::Touch { .. } => "touch",
+            Step::Poke { .. } => "poke",
         }
     }
     pub fn size(&self) -> Option<Size> {
@@ -210,6 +220,7 @@ impl Step {
             | Step::Unmap { size, .. }
             | Step::UpdateFlags { size, .. }
             | Step::SetFlagsP { size, .. }
+            | Step::Poke { size, .. }
             | Step::TranslatePage { size, .. } => Some(*size),
             _ => None,
         }
@@ -221,6 +232,7 @@ impl Step {
             | Step::Unmap { page, .. }
             | Step::UpdateFlags { page, .. }
             | Step::SetFlagsP { page, .. }
+            | Step::Poke { page, .. }
             | Step::TranslatePage { page, .. } => Some(*page),
             Step::IdentityMap { frame, .. } => Some(*frame),
             Step::Translate { addr } | Step::Touch { addr } => Some(*addr),
